@@ -323,6 +323,23 @@ def handle (st : St) (j : Json) : D (St × Json) := do
     let f ← nat (← field j "from")
     let t ← nat (← field j "to")
     return (st, ok (Json.bool (rangeHasMark d.kids f t (← mark (← field j "mark")))))
+  | "blockRange" =>
+    let S ← getSchema st j
+    let d ← node (← field j "doc")
+    let f ← nat (← field j "from")
+    let t ← nat (← field j "to")
+    return (st, match blockRange S d f t with
+      | .ok (some (dep, s, e)) => ok (eNats [dep, s, e])
+      | .ok none => ok Json.null
+      | .error e => eErr e)
+  | "textBetweenSep" =>
+    let S ← getSchema st j
+    let d ← node (← field j "doc")
+    let f ← nat (← field j "from")
+    let t ← nat (← field j "to")
+    let sep ← listOf nat (← field j "sep")
+    let leaf ← listOf nat (← field j "leaf")
+    return (st, eRes eNats (textBetweenSepRes S d.kids f t sep (fun _ => leaf)))
   -- ---------------- C06: content expressions
   | "c06" =>
     -- table: [[name, [groups], isInline, generatable]], expr: string, dfa (optional): [[validEnd, [[ty,next]]]]
@@ -451,6 +468,34 @@ def handle (st : St) (j : Json) : D (St × Json) := do
       let b ← nat (← field j "b")
       return (st, ok (Json.arr (steps.map (fun s => Json.bool (isoSafe a b s))).toArray))
     | _ => throw "bad monitor kind"
+  -- ---------------- C18: covered_depths / lift_target / can_split (PM/Structure.lean);
+  -- `{"err":"raises"}` = the model says the code raises (position out of range, path IndexError,
+  -- content_match_at ValueError)
+  | "coveredDepths" =>
+    let S ← getSchema st j
+    let d ← node (← field j "doc")
+    let f ← nat (← field j "from")
+    let t ← nat (← field j "to")
+    return (st, match coveredDepths S d f t with
+      | some ds => ok (eNats ds)
+      | none => eRaises)
+  | "liftTarget" =>
+    let S ← getSchema st j
+    let d ← node (← field j "doc")
+    let f ← nat (← field j "from")
+    let t ← nat (← field j "to")
+    let k ← nat (← field j "depth")
+    return (st, match liftTarget S d f t k with
+      | some r => ok (eOptNat r)
+      | none => eRaises)
+  | "canSplit" =>
+    let S ← getSchema st j
+    let d ← node (← field j "doc")
+    let p ← nat (← field j "pos")
+    let k ← nat (← field j "depth")
+    return (st, match canSplit S d p k with
+      | some b => ok (Json.bool b)
+      | none => eRaises)
   -- ---------------- C19: HTML serializer
   | "serialize" =>
     let kids ← listOf snodeOfJson (← field j "kids")
